@@ -216,7 +216,7 @@ def run(ctx):
                         'spinodal_condition(extrapolate=False): extrapolated limit or lowest-k value both accepted']
     dk = math.pi / (DR * L)
     MF, MR = dense_transforms(L, DR, dk, FWD, BWD)
-    plans = [(2, [1, 2, 3]), (3, [1, 2, 3]), (4, [1, 2])] if not thorough else [(2, range(1, 13)), (3, range(1, 13)), (4, range(1, 9))]
+    plans = [(2, [1, 2, 3]), (3, [1, 2, 3]), (4, [1, 2])] if not thorough else [(2, range(1, 41)), (3, range(1, 31)), (4, range(1, 17))]
     for rank, seeds in plans:
         res = run_tlc('MC_Calculate', cfg(rank, list(seeds)), ctx.tmp, seed=ctx.seed)
         require_clean(res, 'Calculate rank %d' % rank)
